@@ -1,11 +1,21 @@
 #!/bin/bash
 # scripts/merge_locked.sh NAME Cxx...: merge_ws.sh under the seed lock (no seeded change applied to /repo, no check running
-# from the queue), then the quick checks of the named properties on the clean tree, evidence committed.
+# from the queue), whole-project build (harness + Lean), then the quick checks of the named properties on the clean tree,
+# evidence committed only when every one of them is green.
 n=$1; shift
 exec 9>/tmp/seedq.lock
 flock 9
 cd /verif
 if [ -n "$(git -C /repo status --short | grep -v '^??')" ]; then echo "/repo is not clean"; exit 2; fi
-scripts/merge_ws.sh $n || exit 1
-for c in "$@"; do ./check $c quick 2>&1 | grep -E '^VIOLATION|^KNOWN-FINDING|^check ' | cut -c1-300; done
+if [ "$n" != "-" ]; then scripts/merge_ws.sh $n || exit 1; fi
+export GOFLAGS=-mod=mod GOPROXY=off
+scripts/gen_gomod.sh >/dev/null 2>&1; scripts/gen_handlers.sh >/dev/null 2>&1
+(cd harness && go build -o bin/extract ./extract && go build -tags verif -o /tmp/vcheck.mergetest ./cmd/vcheck) 2>&1 | head -5 > /tmp/merge-$n.gobuild
+if [ -s /tmp/merge-$n.gobuild ]; then echo "HARNESS BUILD BROKEN after merging $n"; cat /tmp/merge-$n.gobuild; exit 3; fi
+harness/bin/extract /verif/lean/Qryn/Gen /repo > /tmp/merge-$n.extract 2>&1
+(cd lean && lake build Qryn driver 2>&1 | grep -E '^error|: error' | head -8) > /tmp/merge-$n.lakebuild
+if [ -s /tmp/merge-$n.lakebuild ]; then echo "LEAN BUILD BROKEN after merging $n"; cat /tmp/merge-$n.lakebuild; exit 3; fi
+bad=0
+for c in "$@"; do ./check $c quick 2>&1 | grep -E '^VIOLATION|^KNOWN-FINDING|^check ' | cut -c1-300 > /tmp/merge-$n.$c; cat /tmp/merge-$n.$c; grep -q '^VIOLATION' /tmp/merge-$n.$c && bad=1; done
+if [ $bad = 1 ]; then echo "NOT GREEN after merging $n"; for c in "$@"; do git checkout -q -- evidence/$c.json; done; exit 4; fi
 git add -A evidence MANIFEST.json; git commit -qm "evidence: clean quick runs after merging $n ($*)" || true
